@@ -1,7 +1,7 @@
 """C06 — total API: every input yields Ok or Err, never a panic, abort or hang."""
 import os, re, sys
 import common as C
-import gen_coq, pylex
+import gen_coq, pylex, vmgen
 
 PID = "C06"
 ALLOWED_AXIOMS = []
@@ -21,23 +21,29 @@ KERNEL_MAXLEN = 600
 CASES_PER_SHARD = 60
 SHARD_TIMEOUT = {"quick": 120, "thorough": 600}
 PROFILES = ["debug"]
-os.environ.setdefault("MW_IMPL_CASE_BUDGET", "2.0")
+os.environ.setdefault("MW_IMPL_CASE_BUDGET", "0.25")
 
 MANIFEST = dict(
-    text="Coq theorems: the scanner is total, the parser neither panics nor loops on scanner output, the highlighter is "
-         "total (C11/C20 theorems restated), per-procedure no-panic / errors-iff-invalid theorems of the string and "
-         "character procedures (C15), + - * totality and the integer-division theorems (C08), the run loop converts every "
-         "instruction error into a returned failure with canonical registers (C07), and a coverage obligation computed "
-         "from the GENERATED builtin table: every registered builtin is either dispatched to a model or named in the "
-         "explicit list of unmodelled ones. NOT proved: a no-panic theorem for every builtin and for the instruction set "
-         "(vm_progress / vm_preservation are OPEN); those are tied by running every builtin x arity x palette on the "
-         "implementation (panic hook, error rendering, probe after each session) and, where a model exists, on the "
-         "extracted model and in-kernel.",
-    design="DESIGN.md section 5 C06",
-    note="PARTIAL at the proof level (see text). Known findings are listed by call site. Trusted: Coq kernel, models tied by "
-         "sampling, harness catch_unwind + timeouts, generator. Axioms: the four standard-library Reals axioms via Flocq "
-         "where a statement mentions numbers.",
-    technique="Rocq/Coq proof (totality theorems, generated coverage obligation) + exhaustive/sampled builtin-call correspondence")
+    text="Coq theorems (coq/Props/C06.v), for EVERY text: the scanner returns tokens or an error; the reader (scan + "
+         "parse, including Number::parse_with_exactness with the ported Ratio<i32>/BigInt/f64 literal parsers) returns a "
+         "datum and the remaining text or an error, never one of the model's explicit Panic sites and never out of fuel "
+         "(this proof found the reader panic on #d1/-2147483648, repaired by fix e424813); the remaining text is strictly "
+         "shorter and the datum-by-datum loop of the front ends ends in END or an error; the bracket highlighter returns a "
+         "result for every text and cursor. A coverage obligation computed over the builtin table GENERATED from "
+         "vm/builtin/*.rs: a registered builtin whose dispatch reaches the model's 'no model' site is one of the explicitly "
+         "listed names (libm, rand, time, terminal size) and the list names nothing else. Per-procedure no-panic / "
+         "errors-iff-invalid theorems live in the files of C15 (strings, characters), C14 (lists, vectors), C08 (+ - * and "
+         "integer division) and C07/C13 (every instruction error becomes a returned failure with canonical registers). "
+         "NOT proved: a no-panic theorem for the instruction set and for every builtin (vm_progress is OPEN); that part is "
+         "decided by running every builtin x arity 0..5 x a palette of all value kinds and boundary values on the "
+         "implementation (panic hook, error rendering forced, probe evaluation after each session) and on the extracted "
+         "model, plus token soup through scanner, reader, evaluator, sliced evaluator and highlighter.",
+    design="DESIGN.md section 5 C06 and section 10",
+    note="PARTIAL at the proof level (see text). Listed findings, each by call site: ratio32-overflow-panic, cyclic-data, "
+         "make-vector-huge, expt-astronomic. A hang is observed as a timeout (implementation) / exhausted fuel (model). "
+         "Trusted: Coq kernel, models tied by sampling, harness catch_unwind + timeouts, generator. Axioms: the four "
+         "standard-library Reals axioms via Flocq where a statement mentions numbers.",
+    technique="Rocq/Coq proof (reader totality for all texts, generated builtin-coverage obligation) + builtin-call correspondence check")
 
 def _unmodelled():
     """the explicit list of builtins without a model is the one the Coq coverage obligation
@@ -96,6 +102,15 @@ def corpus():
               "(integer->char 55296)", "(make-vector 1000000 0)", "(make-string -1 #\\a)", "(list-tail '(1 2) 5)",
               "(apply car '(1 2))", "(apply)", "((call/cc (lambda (k) k)))", "(error)", "(eval)", "(string->symbol \"\")"]:
         out.append(sess([f, PROBE]))
+    # the witnesses of the listed findings run first
+    out.append(sess(["(abs (/ -2147483648 3))", PROBE]))
+    out.append(sess(["(display %s)" % CYCLIC[0], PROBE]))
+    out.append(sess(["(make-vector 9223372036854775808 0)", PROBE]))
+    out.append(sess(["(expt 2 2147483647)", PROBE]))
+    # the reader panic repaired by fix e424813
+    for t in ["#d1/-2147483648", "#d-2147483648/-1", "#x-80000000/-1", "(string->number \"1/-2147483648\")"]:
+        out.append(sess([t, PROBE]))
+    out.append([4] + [ord(c) for c in "#d1/-2147483648"])
     for txt in ["#", "#\\", "\"abc", "(((", ")", "'", "#x", "#e#", "(1 . )", "#(1 . 2)", "\"\\x110000;\"", "#\\x110000", "\x00", "\u200b"]:
         cps = [ord(c) for c in txt]
         out += [[1] + cps, [4] + cps, [5] + cps, [2, 1] + cps, [3, 1] + cps, sess([txt, PROBE])]
@@ -129,12 +144,34 @@ def generate(rng, tier):
     for c in CYCLIC:
         calls.append(c); ncyc += 1
     rng.shuffle(calls)
+    risky = [f for f in calls if classify_call(f)]
+    calls = [f for f in calls if not classify_call(f)]
     cases = []
     for i in range(0, len(calls), 6):
         cases.append(sess(calls[i:i + 6] + [PROBE]))
+    # a session that dies (panic, abort, hang) says nothing about which of its calls did it, and would hide a
+    # second failing call: every such session is replaced by one session per call, so that each failing call is
+    # classified on its own
+    exe = C.build_harness("debug")
+    lines = C.run_impl(exe, cases, per_shard=CASES_PER_SHARD, timeout=SHARD_TIMEOUT[tier])
+    split = 0
+    kept = []
+    for c, l in zip(cases, lines):
+        if _bad(l):
+            split += 1
+            kept += [sess([f, PROBE]) for f in forms_of(c)[:-1]]
+        else:
+            kept.append(c)
+    cases = kept + [sess([f, PROBE]) for f in risky]
     # sliced evaluator on a sample of the same sessions
     for c in rng.sample(cases, min(len(cases), 150 if tier == "quick" else 3000)):
         cases.append([72, rng.choice([1, 2, 7, 50])] + c[1:])
+    # whole programs (recursion, closures, continuations re-entered after their evaluation ended - also ones captured
+    # after the VM stack has grown -, failing forms): the same vm must keep accepting input
+    nprog = 400 if tier == "quick" else 8000
+    for _ in range(nprog):
+        forms, _feat = vmgen.gen_program(rng, err_p=0.08)
+        cases.append(sess(forms + [PROBE]))
     # text soup through every text entry point
     pool = list("()[]{}'`,.#\"\\;|") + list("abcxyz0123456789+-/ \n\t") + ["λ", "\u00a0", "é", "中", "😀", "\x07", "#\\", "#(", "#t", "#x", "1/", "1e", "-", "..."]
     nsoup = 3000 if tier == "quick" else 60000
@@ -148,7 +185,8 @@ def generate(rng, tier):
         elif k < 0.7: cases.append([3, rng.randint(0, len(cps) + 2)] + cps)
         else: cases.append(sess([s, PROBE]))
     return cases, {"builtins": len(names), "calls": len(calls), "cyclic_calls": ncyc, "palette": P,
-                   "exhaustive": per is None, "soup": nsoup}
+                   "exhaustive": per is None, "soup": nsoup, "programs": nprog,
+                   "sessions_split_into_single_calls": split, "risky_calls_run_alone": len(risky)}
 
 
 _CALL = re.compile(r"^\((\S+)")
@@ -185,41 +223,50 @@ def oracle(case, impl_line):
     return None
 
 
-def _known_hang(f):
-    return any(c in f for c in CYCLIC) or f in CYCLIC
+HUGE = {"2147483647", "2147483648", "9223372036854775807", "9223372036854775808"}
+NUMBER_HEADS = {"+", "-", "*", "/", "abs", "floor", "ceiling", "truncate", "round", "expt", "pow", "quotient", "remainder",
+                "modulo", "%", "min", "max", "numerator", "denominator", "exact->inexact", "inexact->exact", "=", "<", ">", "<=", ">=",
+                "zero?", "positive?", "negative?", "odd?", "even?", "number->string"}
 
 
-def known_class(case, impl_line, model_line):
-    if not _bad(impl_line):
-        return None
-    if case[0] not in (70, 72):
-        return None
-    forms = forms_of(case)
-    bad = []
-    for f in forms:
-        if f == PROBE:
-            continue
-        bad.append(f)
-    # a session is attributed to a class only if EVERY suspicious call in it belongs to that class
-    ids = set()
-    for f in bad:
-        fid = classify_call(f)
-        if fid:
-            ids.add(fid)
-    sus = [f for f in bad if classify_call(f)]
-    if sus and len(ids) == 1 and ("PANIC" in impl_line or "TIMEOUT" in impl_line or impl_line.startswith("ABORT")):
-        # the session died; it contains a call of exactly one known class: re-run singly to be sure
-        return ids.pop() if getattr(known_class, "trust_sessions", False) else None
-    return None
+def _head_args(f):
+    m = _CALL.match(f)
+    return (m.group(1).rstrip(")"), f[m.end():].strip()) if m else ("", "")
 
 
 def classify_call(f):
-    """class predicates by call site, as narrow as the code branch they name"""
-    m = _CALL.match(f)
-    name = m.group(1).rstrip(")") if m else ""
-    if _known_hang(f):
-        if name in ("length", "equal?", "display", "write") or f in CYCLIC:
-            return "cyclic-data-hang"
+    """syntactic class predicates by call site, as narrow as the code branch they name"""
+    head, rest = _head_args(f)
+    if any(c in f for c in CYCLIC):
+        # the native-stack / non-terminating traversals of circular data: the printer (display, write, the
+        # conversion of an evaluation's value or of an error payload) and equal?/length
+        if f in CYCLIC or head in ("length", "equal?", "display", "write"):
+            return "cyclic-data"
+        return None
+    if head == "make-vector" and rest.split(" ")[0] in HUGE:
+        return "make-vector-huge"
+    if head in ("expt", "pow"):
+        a = rest.rstrip(")").split(" ")
+        if len(a) == 2 and a[1] in ("2147483647", "2147483648") and re.match(r"^-?\d+$", a[0]) and a[0] not in ("0", "1", "-1"):
+            return "expt-astronomic"
+    return None
+
+
+def known_class(case, impl_line, model_line):
+    """only a session of ONE call (plus the probe) is ever attributed to a class"""
+    if case[0] not in (70, 72) or not _bad(impl_line):
+        return None
+    forms = forms_of(case)
+    if len(forms) != 2 or forms[1] != PROBE:
+        return None
+    f = forms[0]
+    fid = classify_call(f)
+    if fid:
+        return fid
+    head, _ = _head_args(f)
+    if head in NUMBER_HEADS and impl_line == "PANIC" and model_line.startswith("SESSION | PANIC |"):
+        # the model is the port of num-rational's Ratio<i32> arithmetic: it panics exactly where an i32 overflows
+        return "ratio32-overflow-panic"
     return None
 
 
